@@ -7,12 +7,17 @@ type waiter struct {
 	idx  int
 	send bool
 	val  any
+	vc   rclock // race mode: clock of a pending sender at publication time
 }
 
 type chanCore struct {
 	id     int
 	cap    int
 	buf    []any
+	bufVC  []rclock // race mode: clock of the sender of each buffered item
+	recvVC []rclock // race mode: clocks of completed receives (k-th receive -> (k+cap)-th send)
+	nsend  int
+	closeVC rclock
 	closed bool
 	recvq  []*waiter
 	sendq  []*waiter
@@ -188,10 +193,25 @@ func Select(hasDefault bool, cases ...Case) int {
 			if ps := partners(c.recvq, t); len(ps) > 0 && len(c.buf) == 0 {
 				w := ps[s.choose(len(ps), KindRace, "recv-partner")]
 				s.hbEvent(t, objsOf(ks), i)
+				if RaceOn {
+					// rendezvous: send -> receive, and receive -> completion of the send
+					rv := w.t.rvc.copyOf()
+					sv := s.raceRelease(t)
+					s.raceAcquire(w.t, sv)
+					w.t.tick()
+					s.raceAcquire(t, rv)
+				}
 				s.complete(w, c, k.val, true)
 				return
 			}
 			c.buf = append(c.buf, k.val)
+			if RaceOn {
+				if c.nsend >= c.cap && c.nsend-c.cap < len(c.recvVC) {
+					s.raceAcquire(t, c.recvVC[c.nsend-c.cap])
+				}
+				c.nsend++
+				c.bufVC = append(c.bufVC, s.raceRelease(t))
+			}
 			s.hbEvent(t, objsOf(ks), i)
 			return
 		}
@@ -199,11 +219,23 @@ func Select(hasDefault bool, cases ...Case) int {
 		if len(c.buf) > 0 {
 			t.val, t.ok = c.buf[0], true
 			c.buf = c.buf[1:]
+			if RaceOn && len(c.bufVC) > 0 {
+				s.raceAcquire(t, c.bufVC[0])
+				c.bufVC = c.bufVC[1:]
+				c.recvVC = append(c.recvVC, s.raceRelease(t))
+			}
 			s.hbEvent(t, objsOf(ks), i)
 			// a blocked sender refills the buffer
 			if ps := partners(c.sendq, t); len(ps) > 0 {
 				w := ps[s.choose(len(ps), KindRace, "send-partner")]
 				c.buf = append(c.buf, w.val)
+				if RaceOn {
+					if c.nsend >= c.cap && c.nsend-c.cap < len(c.recvVC) {
+						s.raceAcquire(w.t, c.recvVC[c.nsend-c.cap])
+					}
+					c.nsend++
+					c.bufVC = append(c.bufVC, s.raceRelease(w.t))
+				}
 				s.complete(w, c, nil, false)
 			}
 			return
@@ -211,12 +243,21 @@ func Select(hasDefault bool, cases ...Case) int {
 		if ps := partners(c.sendq, t); len(ps) > 0 {
 			w := ps[s.choose(len(ps), KindRace, "send-partner")]
 			t.val, t.ok = w.val, true
+			if RaceOn {
+				rv := s.raceRelease(t)
+				sv := s.raceRelease(w.t)
+				s.raceAcquire(t, sv)
+				s.raceAcquire(w.t, rv)
+			}
 			s.hbEvent(t, objsOf(ks), i)
 			s.complete(w, c, nil, false)
 			return
 		}
 		// closed
 		t.val, t.ok = nil, false
+		if RaceOn {
+			s.raceAcquire(t, c.closeVC)
+		}
 		s.hbEvent(t, objsOf(ks), i)
 	})
 	if s.aborting && t.selIdx == -2 {
@@ -291,6 +332,9 @@ func (c *Chan[T]) Close() {
 			return
 		}
 		c.c.closed = true
+		if RaceOn {
+			c.c.closeVC = s.raceRelease(t)
+		}
 		s.hbEvent(t, []*obj{&c.c.obj}, 99)
 	})
 }
